@@ -66,6 +66,9 @@ def c12(run):
     r_session.run_ref_tmp(run, P)
     r_session.run_ref_hold(run, P)
     r_session.run_sess_evt(run, P)
+    from rules import r_ownlocal
+    r_ownlocal.run(run, P)
+    run.min_instances('R-OWN-LOCAL', 30)
     run.min_instances('R-REF-TMP', 8)
     run.min_instances('R-REF-HOLD', 6)
     run.min_instances('R-SESS-EVT', 5)
